@@ -277,6 +277,52 @@ def run_case(case):
                 viol.append(V(f'C16:driver2-stopped:{r2.outcome}:{ty}', f'read-back driver stopped after {len(p2)}/{2 * m}: '
                               f'{r2.outcome} {r2.stdout[-200:]!r} {r2.crash_tb}',
                               item=items[len(p2) % m] if items else None))
+    # driver 2c (SINGLE): every value also held in a DOUBLE variable of the same program, printed first: the text of a number
+    # depends on its value *and* its type, whatever was printed before
+    if texts and ty == '!':
+        sub = texts[:300]
+        data_c = '\n'.join('DATA ' + ','.join(data_text(ty, v) for v, _, _ in sub[i:i + 50]) for i in range(0, len(sub), 50))
+        drv_c = (f'{data_c}\nFOR zi& = 1 TO {len(sub)}\nREAD zx!\nzd# = zx!\nPRINT zd#\nPRINT zx!\nPRINT STR$(zx!)\nNEXT\n')
+        rc_, errc = run_driver(drv_c, {}, 100 * len(sub) + 1000)
+        if rc_ is None:
+            viol.append(V('C16:driver2c-rejected', errc, text=drv_c[:600]))
+        else:
+            oc = [e[1] for e in rc_.history if e[0] == 'out']
+            for i, (v, x, tx) in enumerate(sub):
+                if 3 * i + 2 >= len(oc):
+                    viol.append(V(f'C16:driver2c-stopped:{rc_.outcome}', f'cross-type driver stopped after {len(oc)} outputs: {rc_.outcome}'))
+                    break
+                st['cross_type_texts'] = st.get('cross_type_texts', 0) + 1
+                td, ts_, tstr = oc[3 * i][:-3], oc[3 * i + 1][:-3], oc[3 * i + 2][:-2]
+                for sg_, ms_ in check_text(td, '#', float(x), 'PRINT (as DOUBLE, before the SINGLE)'):
+                    viol.append(V(sg_ + ':cross-type', ms_))
+                if ts_ != tx:
+                    viol.append(V('C16:text-depends-on-history:!', f'SINGLE {x!r} prints as {tx!r} on its own and as {ts_!r} after the DOUBLE '
+                                  f'of the same value was printed'))
+                if tstr.strip() != tx.strip():
+                    viol.append(V('C16:str-vs-print:!', f'STR$ gives {tstr!r}, PRINT gave {tx!r} for SINGLE {x!r} (after the DOUBLE was printed)'))
+    # driver 2d: INPUT of two numbers per statement, the first response line rejected at its second field
+    if texts and ty in '%&!#':
+        pairs = [(texts[i], texts[i + 1]) for i in range(0, min(len(texts) - 1, 120), 2)]
+        if pairs:
+            drv_d = f'FOR zi& = 1 TO {len(pairs)}\nINPUT zy{ty}, zz{ty}\nPRINT zy{ty}; zz{ty}\nNEXT\n'
+            resp = []
+            for (a_, b_) in pairs:
+                resp += [f'{b_[2].strip()},x{a_[2].strip()}', f'{a_[2].strip()},{b_[2].strip()}']
+            rd, errd = run_driver(drv_d, {'input': resp}, 300 * len(pairs) + 1000)
+            if rd is None:
+                viol.append(V('C16:driver2d-rejected', errd, text=drv_d[:600]))
+            else:
+                pd = [e[1] for e in rd.history if e[0] == 'print']
+                for i, (a_, b_) in enumerate(pairs):
+                    if i >= len(pd):
+                        viol.append(V(f'C16:driver2d-stopped:{rd.outcome}:{ty}', f'two-field INPUT driver stopped after {len(pd)}/{len(pairs)}: {rd.outcome}'))
+                        break
+                    st['input_after_redo_roundtrips'] = st.get('input_after_redo_roundtrips', 0) + 2
+                    items_ = [it for it in pd[i] if isinstance(it, list) and it[0] == 'v']
+                    if len(items_) == 2:
+                        viol += [dict(w, sig=w['sig'] + ':after-redo') for w in roundtrip_viol(ty, a_[1], a_[2], items_[0][2], 'INPUT')]
+                        viol += [dict(w, sig=w['sig'] + ':after-redo') for w in roundtrip_viol(ty, b_[1], b_[2], items_[1][2], 'INPUT')]
     # driver 2b: the texts are first READ into a LONG variable, then (after RESTORE) at their own type: what an earlier READ
     # made of an item must not stick to it
     if texts and ty in '!#':
